@@ -3,7 +3,7 @@ from fractions import Fraction
 
 
 class Lin(object):
-    __slots__ = ("c", "t", "_h")
+    __slots__ = ("c", "t", "_h", "_d")
 
     def __init__(self, c=0, t=()):
         self.c = c
@@ -13,6 +13,7 @@ class Lin(object):
                 d[s] = d.get(s, 0) + k
         self.t = tuple(sorted((s, k) for s, k in d.items() if k))
         self._h = None
+        self._d = None
 
     @staticmethod
     def const(v):
@@ -45,10 +46,10 @@ class Lin(object):
         return [s for s, _ in self.t]
 
     def coef(self, s):
-        for x, k in self.t:
-            if x == s:
-                return k
-        return 0
+        d = self._d
+        if d is None:
+            d = self._d = dict(self.t)
+        return d.get(s, 0)
 
     def subst(self, m):
         """m: sym -> Lin"""
@@ -104,15 +105,49 @@ FM_LIMIT = 600
 _cache = {}
 
 
+def _components(cons):
+    """partition constraints into groups connected through shared symbols"""
+    parent = {}
+
+    def find(x):
+        while parent.get(x, x) != x:
+            parent[x] = parent.get(parent[x], parent[x])
+            x = parent[x]
+        return x
+    for e in cons:
+        ss = [s for s, _ in e.t]
+        for s_ in ss:
+            parent.setdefault(s_, s_)
+        for s_ in ss[1:]:
+            a, b = find(ss[0]), find(s_)
+            if a != b:
+                parent[a] = b
+    groups = {}
+    consts = []
+    for e in cons:
+        if not e.t:
+            consts.append(e)
+            continue
+        groups.setdefault(find(e.t[0][0]), set()).add(e)
+    return consts, groups
+
+
 def feasible(cons):
-    key = frozenset(cons)
-    r = _cache.get(key)
-    if r is None:
-        r = _feasible(key)
-        if len(_cache) > 200000:
-            _cache.clear()
-        _cache[key] = r
-    return r
+    consts, groups = _components(cons)
+    for e in consts:
+        if e.c < 0:
+            return False
+    for g in groups.values():
+        key = frozenset(g)
+        r = _cache.get(key)
+        if r is None:
+            r = _feasible(key)
+            if len(_cache) > 300000:
+                _cache.clear()
+            _cache[key] = r
+        if not r:
+            return False
+    return True
 
 
 def _feasible(cons):
@@ -158,8 +193,21 @@ def _feasible(cons):
 
 
 def entails(cons, goal):
-    """cons |= goal >= 0"""
-    return not feasible(list(cons) + [(-goal) - 1])
+    """cons |= goal >= 0   (only the constraints connected to the goal's symbols matter, provided the rest is
+    satisfiable, which callers maintain)"""
+    neg = (-goal) - 1
+    if not neg.t:
+        return neg.c < 0
+    consts, groups = _components(list(cons) + [neg])
+    for g in groups.values():
+        if neg in g:
+            key = frozenset(g)
+            r = _cache.get(key)
+            if r is None:
+                r = _feasible(key)
+                _cache[key] = r
+            return not r
+    return False
 
 
 def model(cons, syms=None, depth=0):
